@@ -43,8 +43,12 @@ impl TrainDisp {
             debug_assert!(disp_auth_idx_curr.is_some());
             debug_assert!(self.train_idx == link_disp_front[disp_auth_idx_curr.idx()].train_idx);
             debug_assert!(
-                (self.offset_free - disp_node_front.offset)
-                    <= link_disp_front[disp_auth_idx_curr.idx() - 1].offset_back
+                // `offset_free - offset` round trips through floating point addition
+                utils::almost_le_uom(
+                    &(self.offset_free - disp_node_front.offset),
+                    &link_disp_front[disp_auth_idx_curr.idx() - 1].offset_back,
+                    None
+                )
             );
 
             !link_disp_front[disp_auth_idx_curr.idx() - 1]
